@@ -22,11 +22,25 @@ def _snake_pattern(ctx) -> str:
                 env[st.targets[0].id] = ctx.repo.const_eval(fi.module, st.value, env)
             except NotConst:
                 pass
+    pat_expr = None
+    pat_module = fi.module
     calls = calls_named(fi.node, "re.findall")
-    if len(calls) != 1:
-        raise AnalysisError("str_to_snake_case: re.findall call not found")
+    if len(calls) == 1 and allargs(calls[0]):
+        pat_expr = allargs(calls[0])[0]
+    else:
+        # precompiled form: PATTERN.findall(name) with PATTERN = re.compile(<pattern>) at module level
+        for c in walk_no_nested(fi.node):
+            if isinstance(c, ast.Call) and isinstance(c.func, ast.Attribute) and c.func.attr == "findall" and isinstance(c.func.value, ast.Name):
+                k, v = ctx.repo.resolve(fi.module, c.func.value.id)
+                if k == "var":
+                    dm, dn = v
+                    vals = dm.assigns.get(dn, [])
+                    if len(vals) == 1 and isinstance(vals[0], ast.Call) and dotted(vals[0].func) == "re.compile" and vals[0].args:
+                        pat_expr, pat_module = vals[0].args[0], dm
+    if pat_expr is None:
+        raise AnalysisError("str_to_snake_case: tokenising regex (re.findall / compiled pattern) not found")
     try:
-        pat = ctx.repo.const_eval(fi.module, allargs(calls[0])[0], env)
+        pat = ctx.repo.const_eval(pat_module, pat_expr, env)
     except NotConst as exc:
         raise AnalysisError(f"str_to_snake_case: pattern is not a constant ({exc})")
     if not isinstance(pat, str):
@@ -48,8 +62,16 @@ def c18_r1(ctx):
     ctx.check("S" not in used, key(fi, "tokens are alphanumeric"), "a token may contain '_' (joining with '_' would double it)", fi.loc(), okmsg="tokens never contain underscores")
     # the tokens are joined unchanged except for case
     rets = [n for n in fi.node.body if isinstance(n, ast.Return)]
-    call = calls_named(fi.node, "re.findall")[0]
-    good = len(rets) == 1 and norm(allargs(call)[1]) == p
+    call = None
+    subj = None
+    for c in walk_no_nested(fi.node):
+        if isinstance(c, ast.Call) and dotted(c.func) == "re.findall" and len(allargs(c)) >= 2:
+            call, subj = c, allargs(c)[1]
+        elif isinstance(c, ast.Call) and isinstance(c.func, ast.Attribute) and c.func.attr == "findall" and isinstance(c.func.value, ast.Name) and dotted(c.func) != "re.findall" and allargs(c):
+            call, subj = c, allargs(c)[0]
+    if call is None:
+        raise AnalysisError("str_to_snake_case: findall call not found")
+    good = len(rets) == 1 and norm(subj) == p
     if good:
         env = {st.targets[0].id: st.value for st in fi.node.body if isinstance(st, ast.Assign) and isinstance(st.targets[0], ast.Name)}
         rv = rets[0].value
